@@ -35,7 +35,9 @@ Definition is_estab (pro : option nat) (w : world) : bool :=
   match pro with Some _ => opt_nat_eqb pro (w_estab w) | None => false end.
 
 Definition peering_connection_closed (pro : option nat) (w : world) : world :=
-  let w := if is_estab pro w then set_state StIdle (set_w_estab None w) else w in
+  let w := if is_estab pro w
+           then (let w := set_w_estab None w in if st_is w StConnect then w else set_state StIdle w)
+           else w in
   if w_auto w then peering_automatic_start true w else w.
 
 Definition peering_connect_retry : world -> world := peering_connect.
